@@ -514,6 +514,14 @@ class CFG:
             v = None
             if isinstance(src.ast, InlineReturn) and edge[1] == "n":
                 v = _static_truth(e, src.ast.targets[0].id, src.ast.value)
+                if v is None and isinstance(e, ast.Name) and e.id == src.ast.targets[0].id and _pure_condition(src.ast.value):
+                    # the helper returned a comparison and the caller tests the result: on this edge the test IS that
+                    # comparison (pure, so reading it again where it is tested changes nothing) - its outcomes stay edges of
+                    # the caller's graph, where gates are looked for
+                    t2, f2 = self._cond(src.ast.value, [edge])
+                    thr_t += t2
+                    thr_f += f2
+                    continue
             if v is True:
                 thr_t.append(edge)
             elif v is False:
@@ -790,6 +798,30 @@ class CFG:
 
     def stats(self) -> tuple[int, int]:
         return len(self.nodes), sum(len(n.succ) for n in self.nodes)
+
+
+def _pure_condition(e: ast.AST) -> bool:
+    """a comparison / and / or / not over names, constants, attribute chains and subscripts of those"""
+    def pure(x) -> bool:
+        if isinstance(x, (ast.Constant, ast.Name)):
+            return True
+        if isinstance(x, ast.Attribute):
+            return pure(x.value)
+        if isinstance(x, ast.Subscript):
+            return pure(x.value) and (pure(x.slice) if not isinstance(x.slice, ast.Slice) else all(y is None or pure(y) for y in (x.slice.lower, x.slice.upper, x.slice.step)))
+        if isinstance(x, (ast.Tuple, ast.List)):
+            return all(pure(y) for y in x.elts)
+        if isinstance(x, ast.Call) and isinstance(x.func, ast.Name) and x.func.id in ("len", "isinstance") and not x.keywords:
+            return all(pure(y) for y in x.args)
+        return False
+
+    if isinstance(e, ast.Compare):
+        return pure(e.left) and all(pure(c) for c in e.comparators)
+    if isinstance(e, ast.BoolOp):
+        return all(_pure_condition(v) or pure(v) for v in e.values)
+    if isinstance(e, ast.UnaryOp) and isinstance(e.op, ast.Not):
+        return _pure_condition(e.operand) or pure(e.operand)
+    return False
 
 
 def _static_truth(e: ast.AST, var: str, val: ast.AST):
